@@ -31,12 +31,17 @@ def main():
     from vlib.snap import snapshot
 
     os.makedirs(work, exist_ok=True)
+    workreal = os.path.realpath(work)
     state = {'n': 0}
 
     def report(case):
         with open(findings, 'w') as f:
             json.dump(case, f)
         raise RuntimeError('property violated: ' + json.dumps(case)[:300])
+
+    def stats():          # atexit does not run under libFuzzer: keep a side file current instead
+        with open(findings + '.stats', 'w') as f:
+            json.dump({'executed_inside_workdir': state['n'], 'skipped_name_leaves_workdir': state.get('outside', 0)}, f)
 
     if mode == 'c18':
         kinds = []
@@ -99,6 +104,16 @@ def main():
             if not name or '\x00' in name:
                 return
             obj, path, own = objs[only]
+            # The campaign may only touch its own work directory: DataDir resolves user-file names
+            # against the array directory, so an absolute name or enough '..' would create, overwrite
+            # or (delete_files) remove files anywhere on the machine.  '..' up to the work directory
+            # (three levels) stays available; everything else is skipped and counted.
+            resolved = os.path.realpath(os.path.join(path, name))
+            if not resolved.startswith(workreal + os.sep):
+                state['outside'] = state.get('outside', 0) + 1
+                if state['outside'] % 1000 == 0:
+                    stats()
+                return
             state.setdefault('hist', []).append([which, name])
             del state['hist'][:-12]
             dd = obj.datadir
@@ -138,6 +153,8 @@ def main():
                 except OSError:
                     pass
             state['n'] += 1
+            if state['n'] % 1000 == 0:
+                stats()
             if state['n'] % 5000 == 0:
                 fresh()               # also clears whatever '../x' names created next to the arrays
     else:
